@@ -277,6 +277,12 @@ func TestC12Shutdown(t *testing.T) {
 			if last, ok := h.App.Last(); ok && errors.Is(last.Err, mqtt.ErrClosed) {
 				sawClosed = true
 				break
+			} else if ok && last.Err != nil && !last.Big {
+				// not final yet: the read loop is told to go on (C14: ReadBackoff
+				// is nil exactly for the permanent class)
+				if h.Client.ReadBackoff(last.Err) == nil {
+					h.Failf("ReadSlices returned %v (not ErrClosed) after the shutdown, yet ReadBackoff gives nil for it: a read loop which follows ReadBackoff stops before ErrClosed", last.Err)
+				}
 			}
 			if i == 2 {
 				break
